@@ -482,6 +482,32 @@ func (g *G) union(parent reflect.Value, ut reflect.Type, e *yang.Entry) (reflect
 	return reflect.Value{}, false
 }
 
+// resizeSlice drops the last element of a slice-typed leaf value or appends one fresh
+// element (distinct from the present ones) to a copy of it.
+func (g *G) resizeSlice(parent, f reflect.Value, ft reflect.Type, csch *yang.Entry) bool {
+	if f.Len() >= 2 && g.chance(0.5) {
+		n := reflect.MakeSlice(ft, f.Len()-1, f.Len()-1)
+		reflect.Copy(n, f)
+		f.Set(n)
+		return true
+	}
+	v, ok := g.LeafValue(parent, ft, csch)
+	if !ok || v.Kind() != reflect.Slice || v.Len() == 0 {
+		return false
+	}
+	e := v.Index(0)
+	for i := 0; i < f.Len(); i++ {
+		if model.Render(f.Index(i)) == model.Render(e) {
+			return false
+		}
+	}
+	n := reflect.MakeSlice(ft, f.Len()+1, f.Len()+1)
+	reflect.Copy(n, f)
+	n.Index(f.Len()).Set(e)
+	f.Set(n)
+	return true
+}
+
 // LeafValue produces a value assignable to the leaf / leaf-list field (type ft) of parent.
 func (g *G) LeafValue(parent reflect.Value, ft reflect.Type, e *yang.Entry) (reflect.Value, bool) {
 	yt := effType(e)
@@ -839,6 +865,15 @@ func (g *G) Mutate(s reflect.Value, sch *yang.Entry, depth int, ep EditParams) i
 					f.Set(reflect.Zero(sf.Type))
 					edits++
 				case g.chance(ep.PChange):
+					if f.Kind() == reflect.Slice && f.Len() >= 1 && g.chance(0.4) {
+						// a leaf-list / binary value that shrinks or grows at its end (the
+						// commonest edit of such a value, and the one after which the old and
+						// the new value are prefixes of one another)
+						if g.resizeSlice(s, f, sf.Type, csch) {
+							edits++
+						}
+						continue
+					}
 					if v, ok := g.LeafValue(s, sf.Type, csch); ok {
 						if model.Render(v) != model.Render(f) {
 							edits++
